@@ -155,9 +155,10 @@ func checkC03(c *Check) {
 }
 
 func c03Assumption(c *Check) {
-	c.Rule("A1", "the SMTP library is the version whose command sequencing was read for assumption A1", 1)
+	p := c.P
+	c.Rule("A1", "assumption A1 about the SMTP library is re-checked on the library source that go.mod resolves to: Reset after every DATA, DATA refused without an accepted recipient, Logout on close, and a replaced session is logged out (by the library or by maddy's NewSession)", 5)
 	found := ""
-	for path, pk := range c.P.ByPath {
+	for path, pk := range p.ByPath {
 		if path == goSMTPPkg && pk.Module != nil {
 			m := pk.Module
 			if m.Replace != nil {
@@ -166,8 +167,150 @@ func c03Assumption(c *Check) {
 			found = m.Path + "@" + m.Version
 		}
 	}
-	want := "github.com/foxcpp/go-smtp@v1.21.4-0.20250124171104-c8519ae4fb23"
-	c.HoldConst("A1", "go-smtp", token.NoPos, found == want, "go.mod resolves go-smtp to "+found+", assumption A1 was read from "+want+": re-read the library's handleMail/handleData/reset and update the entry states")
+	c.Assume("go-smtp resolves to " + found)
+	dep := func(recv, name string) *RuleCtx {
+		fi := p.DepFunc(goSMTPPkg, recv, name)
+		if fi == nil {
+			c.Fail("A1", "go-smtp:"+recv+"."+name, token.NoPos, "the library function the assumption was read from no longer exists: re-read the library")
+			return nil
+		}
+		c.SawFunc("go-smtp." + recv + "." + name)
+		return &RuleCtx{C: c, FI: fi, F: p.FlowOfFunc(fi), Info: fi.Info()}
+	}
+	// (a) DATA is followed by reset on every path
+	if r := dep("Conn", "handleData"); r != nil {
+		var defers, datas []Pt
+		for _, pt := range r.F.Points() {
+			if d, ok := pt.Node().(*ast.DeferStmt); ok && methodName(d.Call) == "reset" {
+				defers = append(defers, pt)
+			}
+			for _, call := range callsAt(pt.Node()) {
+				if methodName(call) == "Data" || methodName(call) == "handleDataLMTP" {
+					datas = append(datas, pt)
+				}
+			}
+		}
+		ok := len(defers) > 0 && len(datas) > 0
+		if ok {
+			ok, _ = r.MustPass(r.Entry(), true, isPt(datas), isPt(defers))
+		}
+		c.Hold("A1", "go-smtp:DATA-then-reset", r.FI.Decl.Pos(), ok, "the library does not (always) reset the session after DATA: a transaction that failed before Commit would never be aborted – the entry/exit states of C03.R1 must be re-derived")
+		// (c) DATA refused without an accepted recipient
+		world := r.F.World(func(atom ast.Expr) (bool, bool) {
+			if be, ok := ast.Unparen(atom).(*ast.BinaryExpr); ok && (be.Op == token.EQL || be.Op == token.NEQ) {
+				if call, ok := ast.Unparen(be.X).(*ast.CallExpr); ok {
+					if id, ok := call.Fun.(*ast.Ident); ok && id.Name == "len" && len(call.Args) == 1 && strings.HasSuffix(exprStr(call.Args[0]), "recipients") && exprStr(be.Y) == "0" {
+						return be.Op == token.EQL, true
+					}
+				}
+			}
+			return false, false
+		})
+		_, f := r.F.Reach(Query{From: r.Entry(), Inclusive: true, Target: isPt(datas), AvoidEdge: world})
+		c.Hold("A1", "go-smtp:DATA-needs-recipient", r.FI.Decl.Pos(), !f, "the library lets DATA through without an accepted recipient: Data/LMTPData can be entered with no open delivery (entry state Nil must be added)")
+	}
+	// (b) reset → Session.Reset
+	if r := dep("Conn", "reset"); r != nil {
+		ok := false
+		ast.Inspect(r.FI.Decl.Body, func(n ast.Node) bool {
+			if call, isCall2 := n.(*ast.CallExpr); isCall2 && methodName(call) == "Reset" && strings.HasSuffix(exprStr(callRecv(call)), "session") {
+				ok = true
+			}
+			return true
+		})
+		c.Hold("A1", "go-smtp:reset-calls-Session.Reset", r.FI.Decl.Pos(), ok, "the library's reset no longer calls Session.Reset")
+	}
+	// (d) Close → Logout
+	if r := dep("Conn", "Close"); r != nil {
+		ok := false
+		ast.Inspect(r.FI.Decl.Body, func(n ast.Node) bool {
+			if call, isCall2 := n.(*ast.CallExpr); isCall2 && methodName(call) == "Logout" {
+				ok = true
+			}
+			return true
+		})
+		c.Hold("A1", "go-smtp:Close-calls-Logout", r.FI.Decl.Pos(), ok, "the library no longer logs the session out when the connection is closed")
+	}
+	// (e) a session that is replaced is logged out – by the library or by maddy's NewSession
+	libOK := true
+	libWhere := ""
+	if pk := p.ByPath[goSMTPPkg]; pk != nil {
+		for _, file := range pk.Syntax {
+			for _, d := range file.Decls {
+				fd, ok := d.(*ast.FuncDecl)
+				if !ok || fd.Body == nil || fd.Name.Name == "setSession" {
+					continue
+				}
+				obj, _ := pk.TypesInfo.Defs[fd.Name].(*types.Func)
+				fi := &FuncInfo{Obj: obj, Decl: fd, Pkg: pk}
+				r := &RuleCtx{C: c, FI: fi, F: p.FlowOfFunc(fi), Info: pk.TypesInfo}
+				var sets, logouts []Pt
+				for _, pt := range r.F.Points() {
+					for _, call := range callsAt(pt.Node()) {
+						if methodName(call) == "setSession" && len(call.Args) == 1 && !isNilIdent(pk.TypesInfo, call.Args[0]) {
+							sets = append(sets, pt)
+						}
+						if methodName(call) == "Logout" {
+							logouts = append(logouts, pt)
+						}
+					}
+				}
+				if len(sets) == 0 {
+					continue
+				}
+				if ok, _ := r.MustPass(r.Entry(), true, isPt(sets), isPt(logouts)); !ok {
+					libOK = false
+					libWhere = fd.Name.Name
+				}
+			}
+		}
+	}
+	maddyOK := false
+	if r := c.In(smtpEndpRel, "Endpoint", "NewSession"); r != nil {
+		// on every success return a Logout was called on the connection's previous session (conn.Session())
+		var logouts []Pt
+		for _, pt := range r.F.Points() {
+			for _, call := range callsAt(pt.Node()) {
+				if methodName(call) != "Logout" {
+					continue
+				}
+				o := recvObj(r.Info, call)
+				if o == nil {
+					continue
+				}
+				def, _ := localDef(r.Info, r.FI.Decl.Body, o)
+				prevFromConn := false
+				ast.Inspect(def, func(n ast.Node) bool {
+					if cc, ok := n.(*ast.CallExpr); ok && methodName(cc) == "Session" {
+						prevFromConn = true
+					}
+					return true
+				})
+				// also `if prev, ok := conn.Session().(*Session); ok { prev.Logout() }`
+				ast.Inspect(r.FI.Decl.Body, func(n ast.Node) bool {
+					if as, ok := n.(*ast.AssignStmt); ok {
+						for _, l := range as.Lhs {
+							if objOf(r.Info, l) == o {
+								ast.Inspect(as, func(x ast.Node) bool {
+									if cc, ok := x.(*ast.CallExpr); ok && methodName(cc) == "Session" {
+										prevFromConn = true
+									}
+									return true
+								})
+							}
+						}
+					}
+					return true
+				})
+				if prevFromConn {
+					logouts = append(logouts, pt)
+				}
+			}
+		}
+		maddyOK = len(logouts) > 0
+	}
+	c.Hold("A1", "session-replaced-is-logged-out", token.NoPos, libOK || maddyOK,
+		"the SMTP library replaces the session on a repeated EHLO/LHLO (in "+libWhere+") without calling Logout or Reset on the old one, and maddy's NewSession does not compensate: a transaction that is open at that moment is never aborted – its delivery stays open and its limit permits are never returned")
 }
 
 // c03FanOut: in the pipeline's Commit and Abort every iteration over the started target deliveries closes the
